@@ -6,6 +6,7 @@ func init() {
 	vHarnesses["H_C08_keys"] = H_C08_keys
 	vHarnesses["H_C08_keys_deep"] = H_C08_keys_deep
 	vHarnesses["H_C08_subkeys"] = H_C08_subkeys
+	vHarnesses["H_C08_subkeys_num"] = H_C08_subkeys_num
 }
 
 // ---- reference: Appendix A.3 (key search) ----
@@ -346,4 +347,38 @@ func H_C08_subkeys() {
 	}
 	vAssertUnchangedSince(mark, "subkeys: receiver untouched")
 	SetFieldSeparator()
+}
+
+// number-typed sub-key values (concrete numerals: exact float64 semantics)
+func H_C08_subkeys_num() {
+	nums := []string{"0.1", "19.99", "16777217", "2.5", "1e3", "-0.5", "3"}
+	vals := []float64{0.1, 19.99, 16777217, 2.5, 1000, -0.5, 3}
+	i := vChoose(len(nums))
+	j := vChoose(len(nums))
+	word := []string{"num", "number", "float", "float64", "numeric"}[vChoose(5)]
+	neg := vChoose(2) == 1
+	m := Map{"r": []interface{}{
+		map[string]interface{}{"p": vals[i], "n": "one"},
+		map[string]interface{}{"p": vals[j], "n": "two"},
+		map[string]interface{}{"p": "x", "n": "three"},
+	}}
+	spec := "p:" + nums[i] + ":" + word
+	if neg {
+		spec = "!" + spec
+	}
+	got, err := m.ValuesForKey("r", spec)
+	vAssert(err == nil, "subkeys(num): a numeric sub-key spec is accepted")
+	want := 0
+	for k, v := range []interface{}{vals[i], vals[j], "x"} {
+		f, isF := v.(float64)
+		match := isF && f == vals[i]
+		if match != neg {
+			want++
+		}
+		_ = k
+	}
+	vAssert(len(got) == want, "subkeys(num): exactly the members whose number equals (or, negated, differs from) the sub-key value are returned")
+	got2, err2 := m.ValuesForPath("r", spec)
+	vAssert(err2 == nil && len(got2) == want, "subkeys(num): ValuesForPath filters with the same predicate")
+	vCover("num")
 }
